@@ -15,6 +15,9 @@ function genProgram (rng, o) {
 
 function fresh (P, p) { return p + (P.nextName++) }
 
+// non-operation contexts an instrumented expression can sit in
+const WRAPS = ['array', 'object', 'argument', 'new', 'typeof', 'logical', 'comma', 'computed-key', 'spread', 'tagged', 'iife', 'nested-call']
+
 const FUNC_KINDS = ['decl', 'decl', 'arrowBlock', 'arrowExpr', 'gen', 'async', 'asyncGen', 'class', 'decl-default', 'arrow-default']
 
 function genFunc (rng, P, depth, forced) {
@@ -60,11 +63,11 @@ function genBlock (rng, ctx, nest, label) {
 
 function genStmt (rng, ctx, nest, label) {
   const P = ctx.P
-  const nw = nest > 0 ? 2 : 0
-  const k = rng.weighted([6, 4, 2, nw, nw, nw, nw, nw, nw, ctx.depth < 2 ? nw : 0, nw, 2, ctx.depth < 2 ? 1 : 0])
+  const nw = nest > 0 && P.nextSite < 200 ? 2 : 0
+  const k = rng.weighted([6, 4, 2, nw, nw, nw, nw, nw, nw, ctx.depth < 2 ? nw : 0, nw, 2, ctx.depth < 2 ? 1 : 0, nw / 2, nw / 2, nw / 2])
   switch (k) {
-    case 0: return { t: 'expr', e: genOpExpr(rng, ctx, 2, label) }
-    case 1: return { t: 'const', name: fresh(P, 'v'), e: genOpExpr(rng, ctx, 2, label) }
+    case 0: return { t: 'expr', e: genOpExpr(rng, ctx, 2, label), wrap: rng.chance(1, 3) ? rng.pick(WRAPS.concat(ctx.f.isAsync ? ['await'] : [], ctx.f.isGen ? ['yield'] : [])) : null }
+    case 1: return { t: 'const', name: fresh(P, 'v'), e: genOpExpr(rng, ctx, 2, label), wrap: rng.chance(1, 3) ? rng.pick(WRAPS.concat(['destructuring-default'])) : null }
     case 2: return { t: 'ret', e: genOpExpr(rng, ctx, 2, label) }
     case 3: return { t: 'if', c: genOpExpr(rng, ctx, 1, 'if-test'), then: genBlock(rng, ctx, nest - 1, label), els: rng.chance(1, 2) ? genBlock(rng, ctx, nest - 1, label) : null }
     case 4: return { t: 'for', n: rng.range(1, 3), v: fresh(P, 'i'), body: genBlock(rng, { ...ctx, loop: ctx.loop + 1 }, nest - 1, 'loop-body') }
@@ -75,6 +78,9 @@ function genStmt (rng, ctx, nest, label) {
     case 9: return { t: 'nested', f: genFunc(rng, P, ctx.depth + 1, rng.pick(['decl', 'arrowBlock', 'arrowExpr', 'gen', 'async', 'class', P.known ? 'decl-default' : 'arrow-default'])) }
     case 10: return { t: 'block', labelled: rng.chance(1, 3), body: genBlock(rng, ctx, nest - 1, label) }
     case 11: return { t: 'addassign', target: rng.pick(['local', 'member']), e: genOpExpr(rng, ctx, 1, label, true), id: P.nextOp++ }
+    case 13: return { t: 'dowhile', n: rng.range(0, 1), v: fresh(P, 'd'), c: genOpExpr(rng, ctx, 1, 'loop-head'), body: genBlock(rng, { ...ctx, loop: ctx.loop + 1 }, nest - 1, 'loop-body') }
+    case 14: return { t: 'forin', v: fresh(P, 'k'), body: genBlock(rng, { ...ctx, loop: ctx.loop + 1 }, nest - 1, 'loop-body') }
+    case 15: return { t: 'switchlex', v: fresh(P, 'v'), c: genOpExpr(rng, ctx, 1, 'switch-discriminant'), e1: genOpExpr(rng, ctx, 1, 'switch-case-clause'), e2: genOpExpr(rng, ctx, 1, 'switch-case-clause') }
     default: return { t: 'closure', n: rng.range(1, 2), v: fresh(P, 'j'), f: genFunc(rng, P, ctx.depth + 1, rng.pick(['arrowBlock', 'arrowExpr'])) }
   }
 }
@@ -83,6 +89,8 @@ function genStmt (rng, ctx, nest, label) {
 function genOpExpr (rng, ctx, d, label, nested) {
   const P = ctx.P
   const f = ctx.f
+  // keep programs small: many short, diverse runs beat a few huge ones
+  if (P.nextSite > 160) d = 0
   const operand = () => {
     if (d > 0 && rng.chance(1, 6)) {
       // a conditional whose branches need different numbers of temporaries
@@ -109,13 +117,13 @@ function genOpExpr (rng, ctx, d, label, nested) {
       for (let i = 0; i < n; i++) ops.push(operand())
       return { t: 'tpl', id, label, ops }
     }
-    case 5: return { t: 'call', id, label, m: rng.pick(['trim', 'trimStart', 'trimEnd']), recv: operand(), args: [], recvShape: rng.pick(['plain', 'paren']) }
+    case 5: return { t: 'call', id, label, m: rng.pick(['trim', 'trimStart', 'trimEnd']), recv: operand(), args: [], recvShape: rng.pick(['plain', 'paren']), form: rng.pick(['method', 'method', 'proto-call']) }
     case 6: {
       const n = rng.range(1, 2)
       const args = []
       const recv = operand()
       for (let i = 0; i < n; i++) args.push(operand())
-      return { t: 'call', id, label, m: 'concat', recv, args, recvShape: rng.pick(['plain', 'paren']) }
+      return { t: 'call', id, label, m: 'concat', recv, args, recvShape: rng.pick(['plain', 'paren']), form: rng.pick(['method', 'method', 'method', 'proto-call', 'proto-apply', 'spread']) }
     }
     default: return { t: 'optcall', id, label, site: P.nextSite++, m: rng.pick(['trim', 'trimEnd']) }
   }
@@ -194,6 +202,9 @@ function render (P) {
         const needParen = e.recv.t === 'plus' || e.recv.t === 'yield' || e.recv.t === 'await' || e.recv.t === 'cond' || e.recvShape === 'paren'
         const args = e.args.map(o => ex(o, A))
         reg(e, e.m === 'concat' ? 'concat' : 'trim', leavesOf(e), e.label)
+        if (e.form === 'proto-call') return `String.prototype.${e.m}.call(${[r].concat(args).join(', ')})`
+        if (e.form === 'proto-apply') return `String.prototype.${e.m}.apply(${r}, [${args.join(', ')}])`
+        if (e.form === 'spread') return `${needParen ? `(${r})` : r}.${e.m}(...[${args.join(', ')}])`
         return `${needParen ? `(${r})` : r}.${e.m}(${args.join(', ')})`
       }
       case 'optcall': {
@@ -204,16 +215,52 @@ function render (P) {
     return "''"
   }
 
+  function wrap (w, e) {
+    switch (w) {
+      case 'array': return `[${e}, 1]`
+      case 'object': return `({ k: ${e} })`
+      case 'argument': return `$.n(${e})`
+      case 'new': return `new $.K(${e})`
+      case 'typeof': return `typeof (${e})`
+      case 'logical': return `(${e} || $.n(0))`
+      case 'comma': return `(0, ${e})`
+      case 'computed-key': return `({ [${e}]: 1 })`
+      case 'spread': return `[...[${e}]]`
+      case 'tagged': return `$.tag\`x\${${e}}y\``
+      case 'iife': return /\b(yield|await)\b/.test(e) ? `(0, ${e})` : `(() => ${e})()`
+      case 'nested-call': return `$.n($.n(${e}), 2)`
+      case 'await': return `(await (${e}))`
+      case 'yield': return `(yield (${e}))`
+    }
+    return e
+  }
   function block (stmts, A, f) { for (const s of stmts) stmt(s, A, f) }
 
   function stmt (s, A, f) {
     switch (s.t) {
       case 'expr': {
-        const e = ex(s.e, A)
+        const e = wrap(s.wrap, ex(s.e, A))
         emit(`void (${e});`)
         break
       }
-      case 'const': emit(`const ${s.name} = ${ex(s.e, A)};`); break
+      case 'const':
+        if (s.wrap === 'destructuring-default') emit(`const { ${s.name} = ${ex(s.e, A)} } = {};`)
+        else emit(`const ${s.name} = ${wrap(s.wrap, ex(s.e, A))};`)
+        break
+      case 'dowhile':
+        emit(`let ${s.v} = 0;`)
+        emit('do {'); ind++; block(s.body, A, f); ind--; emit(`} while (${s.v}++ < ${s.n} && $.t(${ex(s.c, A)}));`)
+        break
+      case 'forin':
+        emit(`for (const ${s.v} in { k1: 1, k2: 2 }) {`); ind++; block(s.body, A, f); ind--; emit('}')
+        break
+      case 'switchlex':
+        // case clauses are not blocks: the lexical declarations and the temporaries live in the enclosing block
+        emit(`switch ($.t(${ex(s.c, A)}) ? 0 : 1) {`); ind++
+        emit('case 0:'); ind++; emit(`const ${s.v} = ${ex(s.e1, A)};`); emit('break;'); ind--
+        emit('default:'); ind++; emit(`void (${ex(s.e2, A)});`); ind--
+        ind--; emit('}')
+        break
       case 'ret': if (f && f.noReturn) emit(`void (${ex(s.e, A)});`); else emit(`return ${ex(s.e, A)};`); break
       case 'if':
         emit(`if ($.t(${ex(s.c, A)})) {`); ind++; block(s.then, A, f); ind--
